@@ -311,6 +311,12 @@ def run(ctx):
             fresh_list = dec.fields.get(name)
             ob('fresh-decoder-has-empty-buffers', isinstance(fresh_list, ListVal) and not fresh_list.items)
             dec.fields[name] = empty_seq()      # the empty list, as a sequence value
+        # a decoder owns its state: buffers and file slot are instance attributes set by the constructor
+        # (state kept on the class would be shared by the decoders of all messages and associations)
+        ob('fresh-decoder-owns-its-state', all(n in dec.fields for n in ('_dataset_fp', '_start')) and
+           dec.fields.get('_dataset_fp') is None)
+        dec.fields.setdefault('_dataset_fp', None)
+        dec.fields.setdefault('_start', 0)
         p.oblige('%s#fresh-decoder-satisfies-the-invariant' % label, invariant(p, dec), kind='invariant', assume_after=False)
         # process() is called at an arbitrary point of the stream
         havoc_state(p, dec)
